@@ -165,9 +165,6 @@ def step (_ : Unit) (toks : List String) : Unit × String :=
       ((), s!"b {b.start} {b.stop}")
   | none => ((), "bad-op")
 
-def specW (every offset : Int) : Spec.C20.W :=
-  if every = maxInt64 then .all else .every every offset
-
 def sizeTag (n : Nat) : String :=
   if n = 0 then "out:0" else if n < blockSize then "out:<B" else if n = blockSize then "out:=B"
   else if n ≤ 2 * blockSize then "out:B..2B" else "out:>2B"
@@ -193,7 +190,7 @@ def oracle1 (toks : List String) (ans : String) : Verdict :=
     else
       let pts := o.shards.flatten.flatten
       let obs := parseArrs ans
-      let c : Spec.C20.Case Val := ⟨o.agg, specW o.every o.offset, pts, obs⟩
+      let c : Spec.C20.Case Val := ⟨o.agg, Spec.C20.reqW o.every o.offset, pts, obs⟩
       let ok := Spec.C20.holdsOn o.typ.ops c
       let nOut := (obs.getD []).flatten.length
       let tags := ["agg:" ++ Agg.name o.agg,
